@@ -428,6 +428,26 @@ pub fn main_for(pid: &str) {
         let mut reg = Reg::new(&xot);
         let pool = make_pool(&mut xot, &mut reg, true);
         let options = pid == "C14";
+        if options && k < BRACKET_DOCS {
+            // exhaustive stream: every string over { ']', '>', 'x' } up to length 5 and over { ']', '>' } of length 6 and 7, as the
+            // text of one element each, written with unescaped_gt on / off and as ordinary text / as a CDATA section element
+            let strs = bracket_strings();
+            let per = (strs.len() + BRACKET_DOCS - 1) / BRACKET_DOCS;
+            let name = pool.names[0];
+            let kids: Vec<ANode> = strs.iter().skip(k * per).take(per)
+                .map(|s| ANode::Elem { name, ns: vec![], attrs: vec![], kids: vec![ANode::Text(s.clone())] }).collect();
+            let mut t = ANode::Doc(vec![ANode::Elem { name, ns: vec![], attrs: vec![], kids }]);
+            declare_missing(&mut r, &mut t, &reg, &pool, 100);
+            let root = build(&mut xot, &reg, &t);
+            let mut queries = vec![];
+            for gt in [true, false] {
+                for cd in [false, true] {
+                    queries.push(RtParams { ser: SerParams { cdata: if cd { vec![name] } else { vec![] }, unescaped_gt: gt, suppress: vec![] }, decl: None, indent: false });
+                }
+            }
+            run_tree(pid, &format!("c{}", k), &xot, &reg, root, &queries, &mut out, &mut stats, "bracket-enum");
+            continue;
+        }
         let route = if pid == "C01" { k % 3 } else { k % 2 };
         let (root, route_name) = match route {
             1 => {
@@ -481,6 +501,23 @@ pub fn main_for(pid: &str) {
         run_tree(pid, &format!("c{}", k), &xot, &reg, root, &queries, &mut out, &mut stats, route_name);
     }
     out.finish(&stats);
+}
+
+const BRACKET_DOCS: usize = 40;
+
+fn bracket_strings() -> Vec<String> {
+    let mut out = vec![];
+    for (alphabet, lens) in [(&[']', '>', 'x'][..], 1..=5usize), (&[']', '>'][..], 6..=7usize)] {
+        for len in lens {
+            let total = alphabet.len().pow(len as u32);
+            for mut i in 0..total {
+                let mut s = String::new();
+                for _ in 0..len { s.push(alphabet[i % alphabet.len()]); i /= alphabet.len(); }
+                out.push(s);
+            }
+        }
+    }
+    out
 }
 
 fn bracket_text(r: &mut Rng, a: &mut ANode) {
